@@ -14,6 +14,7 @@ pub struct C02;
 
 pub fn profile() -> CProfile {
     CProfile {
+        w_stepcoop: 3,
         w_step: 34,
         w_drain: 10,
         w_newcall: 22,
